@@ -5,6 +5,8 @@
    lt .. ne  : the operators of evalInfixExpression; min / max: the extensions on (v1, v2);
    key       : whether {v1:7}[v2] finds the entry (SmallMap.get: Cmp(stored key, key) == 0)
    gf        : for an integer/float pair, the code-shaped cmpIntFloat (negated when the float comes first)
+   par clo loopl loopr : the six operators and the lookup again (7 characters), the operands reaching them as function
+               parameters (registers for integers), as references from a closure, as a counted-loop variable (left / right)
    "-"       : not evaluated (error / return values cannot be operands in a program)                  *)
 let cs = function Lt -> "-1" | Eq -> "0" | Gt -> "1"
 let oc = function Val c -> cs c | GoPanic -> "P"
@@ -21,10 +23,15 @@ let () = iter_lines (fun line ->
       | VFloat f, VInt i -> cs (match cmp_int_float_go i f with Lt -> Gt | Eq -> Eq | Gt -> Lt)
       | _ -> "-" in
     if api_only a || api_only b then
-      Printf.printf "%s c=%s e=%s lt=- le=- gt=- ge=- eq=- ne=- min=- max=- key=- gf=%s\n" id (oc c) (ob (equals a b)) gf
-    else
-      Printf.printf "%s c=%s e=%s lt=%s le=%s gt=%s ge=%s eq=%s ne=%s min=%s max=%s key=%s gf=%s\n" id (oc c) (ob (equals a b))
+      Printf.printf "%s c=%s e=%s lt=- le=- gt=- ge=- eq=- ne=- min=- max=- key=- gf=%s par=- clo=- loopl=- loopr=-\n" id (oc c) (ob (equals a b)) gf
+    else begin
+      let key = match c with Val Eq -> "1" | Val _ -> "0" | GoPanic -> "P" in
+      (* operands delivered by the evaluator (parameters / registers, references, loop variables) are the same values *)
+      let seven = String.concat "" [ob (op_lt a b); ob (op_le a b); ob (op_gt a b); ob (op_ge a b); ob (op_eq a b); ob (op_ne a b); key] in
+      let small = function VInt z -> let i = int64_of_z z in Int64.compare i 0L >= 0 && Int64.compare i 3L <= 0 | _ -> false in
+      Printf.printf "%s c=%s e=%s lt=%s le=%s gt=%s ge=%s eq=%s ne=%s min=%s max=%s key=%s gf=%s par=%s clo=%s loopl=%s loopr=%s\n" id (oc c) (ob (equals a b))
         (ob (op_lt a b)) (ob (op_le a b)) (ob (op_gt a b)) (ob (op_ge a b)) (ob (op_eq a b)) (ob (op_ne a b))
-        (ov (vmin a [b])) (ov (vmax a [b]))
-        (match c with Val Eq -> "1" | Val _ -> "0" | GoPanic -> "P") gf
+        (ov (vmin a [b])) (ov (vmax a [b])) key gf seven seven
+        (if small a then seven else "-") (if small b then seven else "-")
+    end
   | _ -> ())
